@@ -398,12 +398,25 @@ def run_C(case):
         dtype = "int8" if rng.integers(0, 3) else "int16"
         g = netgen.G(rng, dtype)
         lo, hi = netgen.DT_RANGE[dtype]
-        shp = [1, 2, 2, int(rng.choice([4, 8]))]
+        # every int8 code (a sample of 2048 int16 codes) goes through the fold
+        shp = [1, 4, 8, 8] if dtype == "int8" else [1, 8, 16, 16]
         s_k, zp_k = g.rscale(0.002, 0.2), g.rzp()
-        vals = rng.integers(lo, hi + 1, shp)
-        vals.flat[0], vals.flat[1] = lo, hi
-        k = g.const("kq", shp, dtype, vals, [s_k], [zp_k])
+        if dtype == "int8":
+            vals = rng.permutation(np.arange(lo, hi + 1)).reshape(shp)
+        else:
+            vals = rng.integers(lo, hi + 1, shp)
+            vals.flat[0], vals.flat[1] = lo, hi
         s_q, zp_q = g.rscale(0.002, 0.2), g.rzp()
+        if t % 2:
+            # tie-prone pairs: the real ratio is close to (m + 1/2) / n, so that products land next to rounding boundaries, where the precision of the
+            # ratio (float vs double) and the rounding rule decide the result
+            if rng.integers(0, 2):
+                a, b = [(0.15, 0.1), (0.25, 0.1), (0.05, 0.02), (0.007, 0.002), (0.3, 0.12), (0.0235, 0.047), (0.35, 0.1), (0.09, 0.04), (0.11, 0.04)][int(rng.integers(0, 9))]
+                s_k, s_q = float(np.float32(a)), float(np.float32(b))
+            else:
+                m_, n_ = int(rng.integers(0, 6)), int(rng.choice([1, 2, 3, 4, 5, 8]))
+                s_k = float(np.float32(s_q * (m_ + 0.5) / n_))
+        k = g.const("kq", shp, dtype, vals, [s_k], [zp_k])
         q = g.act("q_out", shp, s_q, zp_q)
         g.net.add_o(BO.QUANTIZE, [k.name], [q.name], "QuantizeOptions", {}, 2)
         x = g.input(shp)
@@ -478,7 +491,7 @@ def summarise(agg, tier):
     q = tier == "quick"
     return {
         "thresholds": {"helper_evaluations": 100000 if q else 3000000, "tables_checked": 250 if q else 8000, "hook_evaluations": 250 if q else 8000,
-                       "folded_constants_checked": 500 if q else 6000},
+                       "folded_constants_checked": 10000 if q else 200000},
         "rule": "A: (helper, operand tuple, operand type) evaluations of every fp_math helper, boundary-biased + exhaustive int8 pairs / int16 x shifts, "
                 "types python int and numpy int8/16/32/64; B: 8-bit tables captured from real compilations of single-activation networks with random "
                 "quantisation; C: QUANTIZE constant folding observed at the rewrite. distinct = helpers (A) + distinct (kind,dtype,scales,zps,alpha) tables (B) + folds (C)",
